@@ -3,4 +3,4 @@
 From Coq Require Import Extraction ExtrOcamlBasic.
 From SV Require Import Sx Dispatch.
 Extraction Language OCaml.
-Extraction "model.ml" Dispatch.run Sx.sx_eqb.
+Extraction "model.ml" Dispatch.dispatch_request Sx.sx_eqb.
